@@ -9,7 +9,7 @@ import (
 )
 
 func (p *PcClient) scaleProcess(name string, scale int) error {
-	url := fmt.Sprintf("http://%s/process/scale/%s/%d", p.address, name, scale)
+	url := fmt.Sprintf("http://%s/process/scale/%s/%d", p.address, pathSegment(name), scale)
 	req, err := http.NewRequest(http.MethodPatch, url, nil)
 	if err != nil {
 		return err
